@@ -7,7 +7,7 @@ from ..core import short_exc
 
 PROP = "C10"
 LEVEL = "exploration"
-N = {"quick": 12000, "thorough": 300000}
+N = {"quick": 100000, "thorough": 2000000}
 RULE = ("seeded instance x filter x op list interleaving dispatches, rejected requests and resets with subscription "
         "churn (construct singleton / non-singleton recording observers subscribed or not, unsubscribe, re-subscribe, "
         "duplicate singleton, create_or_get_observer with conditions, HistoryObserver); the global callback log must "
